@@ -308,22 +308,27 @@ func checkClassifier(res *Result, p *Pub, name, method, header string) {
 	res.check(hdrOK, "C07-R6", name, p.pos(media), "media type read from request header "+header, "argument is not r.Header.Get(\""+header+"\")")
 	// method test holds at the media call
 	res.check(ff.hasName(media, "param:r->Method", fEQ, "const:"+method), "C07-R6", name, p.pos(media), "media-type test evaluated only where r.Method == \""+method+"\"", "facts: "+ff.describe(media))
-	// every return: either the media call's result, or constant false
-	for _, r := range returnsIn(fn) {
-		v := r.Results[0]
-		ok := false
-		if phi, isPhi := v.(*ssa.Phi); isPhi {
-			ok = true
-			for _, e := range phi.Edges {
-				if b, isC := boolConst(e); isC && !b {
-					continue
-				}
-				if e == ssa.Value(media) {
-					continue
-				}
-				ok = false
-			}
+	// every return: the media call's result, constant false, or a merge of such values
+	var acceptable func(v ssa.Value, depth int) bool
+	acceptable = func(v ssa.Value, depth int) bool {
+		if b, isC := boolConst(v); isC && !b {
+			return true
 		}
-		res.check(ok, "C07-R6", name, p.pos(r), "result is (method test) && (media-type test)", "return value is not phi(false, headerIsActivityPubMediaType(...))")
+		if v == ssa.Value(media) {
+			return true
+		}
+		if phi, isPhi := v.(*ssa.Phi); isPhi && depth < 6 {
+			for _, e := range phi.Edges {
+				if !acceptable(e, depth+1) {
+					return false
+				}
+			}
+			return true
+		}
+		return false
+	}
+	for _, r := range returnsIn(fn) {
+		ok := acceptable(r.Results[0], 0)
+		res.check(ok, "C07-R6", name, p.pos(r), "result is (method test) && (media-type test)", "the returned value is neither false nor the media-type test (nor a merge of the two)")
 	}
 }
